@@ -252,10 +252,10 @@ def addParamsErr (q : List (Bytes × Bytes)) : Bool :=
   boolBad q b!"shard" || boolBad q b!"progress" || intBad q b!"cid-version" ||
   boolBad q b!"raw-leaves" || boolBad q b!"stream-channels" || boolBad q b!"nocopy"
 
-/-- options of `add` the model does not cover (time-dependent or structured values, sharding) -/
+/-- options of `add` the model does not cover (time-dependent or structured values, sharding, CAR import) -/
 def addUnmodelled (q : List (Bytes × Bytes)) : Bool :=
   !(qGet q b!"expire-at").isEmpty || !(qGet q b!"expire-in").isEmpty || !(qGet q b!"pin-update").isEmpty ||
-  !(qGet q b!"origins").isEmpty || parseBool (qGet q b!"shard") == some true
+  !(qGet q b!"origins").isEmpty || parseBool (qGet q b!"shard") == some true || qGet q b!"format" == b!"car"
 
 /-! ## routing (gorilla/mux) -/
 
